@@ -215,6 +215,9 @@ def size_shapes(rnd):
     out.append(("repeated-return-single", 'def rr { if f1 == 1 { return "only" weighted 1 } else { if f2 == 1 { return "only" weighted 1 } } }'))
     # many splitters, duplicates in the splitter list
     out.append(("splitters-10", 'def sp { splitters: a, b, c, d, e, f, g, h, i, j return "x" weighted 1, "y" weighted 1 }'))
+    tiny = "0." + "0" * 323 + "5"  # 5e-324, the smallest positive double
+    out.append(("subnormal-weight-single", f'def sw {{ splitters: u return "x" weighted {tiny} }}'))
+    out.append(("subnormal-weights", f'def sw {{ splitters: u if f1 == 1 {{ return "x" weighted {tiny}, "y" weighted {tiny} }} else {{ return "z" weighted {tiny}, "w" weighted 0, "v" weighted 0.{"0" * 320}25 }} }}'))
     out.append(("splitters-3000", "def sp { splitters: " + ", ".join(f"s{i:04d}" for i in range(3000)) + ' return "x" weighted 1, "y" weighted 1 }'))
     out.append(("splitter-repeated", 'def sp { splitters: a, a return "x" weighted 1, "y" weighted 1 }'))
     out.append(("splitter-reverse-order", 'def sp { splitters: z, y, x, a if x == 1 { return "x" weighted 1, "y" weighted 1 } }'))
